@@ -164,7 +164,10 @@ def run_jobs(jobs: List[SJob], twin_all=False) -> SOutcome:
                 continue
             rp = replay_native(j.module, j.fn, argstr)
             rec["native_replay"] = rp
-            if rp.get("returned", "") not in ("", None) or "raised" in rp:
+            if "raised" in rp or "error" in rp:
+                # harnesses catch what func_adl raises and return a diagnostic; an exception escaping the harness is a harness bug
+                out.harness_errors.append("harness %s raised during native replay of %s: %s" % (tag, argstr, json.dumps(rp)[:300]))
+            elif rp.get("returned", "") not in ("", None):
                 out.counterexamples.append(rec)
             else:
                 out.unreproduced.append(rec)
